@@ -8,7 +8,8 @@ CommitBuilder.record_iter_changes on a real repository of that format:
 
     2a         PackCommitBuilder._heads (per-file graph), rich root
     pack-0.92  PackCommitBuilder._heads (per-file graph), root not versioned
-    knit       VersionedFileCommitBuilder._heads (revision graph), root not versioned
+    knit       VersionedFileCommitBuilder._heads (per-file graph on repository.texts since 2c4765b;
+               the same builder RemoteRepository uses), root not versioned
 
 Observation: for every file of every revision the last-changed revision
 (RevisionTree.get_file_revision), the stored per-file parents
@@ -38,9 +39,9 @@ META = {
                    "records for each file the unique per-file head among the parents' versions when its attributes equal that "
                    "version's, and otherwise a new version whose parents are exactly the ordered heads; every last-changed "
                    "revision is an ancestor holding the identical entry and a stored text key; with per-file heads "
-                   "(PackCommitBuilder: 2a, pack-0.92) the checker's expected parents equal the stored ones for every key. "
-                   "With revision-graph heads (VersionedFileCommitBuilder: knit, RemoteRepository) that last clause is refuted "
-                   "(candidate finding). The literal 'last changed = a revision where the file changed' reading is refuted for "
+                   "(every builder since fix 2c4765b: 2a, pack-0.92, knit) the checker's expected parents equal the stored ones "
+                   "for every key. The pre-repair revision-graph heads of VersionedFileCommitBuilder._heads (finding "
+                   "C02-global-heads-readd, fixed) survive only as C02_old_* statements about the old behaviour. The literal 'last changed = a revision where the file changed' reading is refuted for "
                    "per-file merge nodes (identical parallel changes), by design of bzr."),
     "level_note": ("Trusted: Coq kernel, vm_compute, the hand model's correspondence (bounded sampling of histories), vcsgraph "
                    "Graph.heads as modelled by Lib/Dag, iter_changes and the text stores (knit/groupcompress) as exercised by "
@@ -50,7 +51,7 @@ META = {
                      "_do_generate_text_key_index/_VersionedFileChecker and breezy/bzr/pack_repo.py PackCommitBuilder._heads",
                      "coq/Lib/Dag.v as a model of vcsgraph Graph.heads",
                      "correspondence harness harness/props/c02.py, harness/daglib.py"],
-    "assumptions": ["vcsgraph Graph.heads on the per-file text index / the revision graph = Lib/Dag heads (keys absent from the index are heads)",
+    "assumptions": ["vcsgraph Graph.heads on the per-file text index / repository.texts = Lib/Dag heads (keys absent from the index are heads)",
                     "Tree.iter_changes(basis) reports exactly the entries whose kind, name, parent, executable bit or content differ from the basis",
                     "texts.add_content(nostore_sha=s) raises ExistingContent exactly when the new text has sha1 s",
                     "non-rich-root formats: the stored root entry reads back with revision = the revision id and has no text key",
@@ -63,10 +64,12 @@ META = {
 }
 SHARD = 60
 
-FORMATS = {"2a": (True, True), "pack-0.92": (True, False), "knit": (False, False)}   # fmt -> (per_file_heads, rich_root)
+# fmt -> (per_file_heads, rich_root); per_file_heads is True for every builder of the current code (False was the
+# revision-graph _heads of VersionedFileCommitBuilder before fix 2c4765b, kept in the Coq model for C02_old_* only)
+FORMATS = {"2a": (True, True), "pack-0.92": (True, False), "knit": (True, False)}
 DIRS = (1, 2)
 FILES = (3, 4, 5, 6)
-FINDING = "C02-global-heads-readd"
+FIXED_FINDINGS = ("C02-global-heads-readd",)   # repaired by 2c4765b: nothing is excused any more
 
 
 def fidb(f):
@@ -178,12 +181,27 @@ FIXED = [
       _R([1, 1, 0, "directory", False, 0], _F(3, 0, kind="symlink"), _F(4, 0, name=1, parent=1), _F(5, 0, ex=True)),
       _R([1, 0, 0, "directory", False, 0], _F(3, 0), _F(4, 0, parent=1), _F(5, 0))]),
     # delete and re-add with the same file id, then merge with a branch that kept the old version:
-    # per-file heads {3, 1}, revision-graph heads {3}  (the witness of C02-global-heads-readd)
+    # per-file heads {3, 1}, revision-graph heads {3}  (witness of C02-global-heads-readd, fixed by 2c4765b:
+    # must pass in every format now)
     ("readd", [[], [0], [1], [2], [1], [3, 4], [4, 3]],
      [_R(_F(3, 0)), _R(_F(3, 1)), _R(), _R(_F(3, 2)), _R(_F(3, 1), _F(4, 0)), _R(_F(3, 2), _F(4, 0)), _R(_F(3, 1), _F(4, 0))]),
     # ghosts: left-hand ghost (NULL basis), ghost as merged parent, second root re-using file ids
     ("ghosts", [[], [47], [0, 1], [2, 48], [], [3, 4]],
      [_R(_F(3, 0)), _R(_F(3, 1)), _R(_F(3, 1)), _R(_F(3, 1), _F(4, 0)), _R(_F(3, 0), _F(4, 0)), _R(_F(3, 1), _F(4, 0))]),
+    # merge + move to another directory: 2 changes file 3, 3 = merge(1, 2) takes 2's content and moves the file
+    # from directory 1 to directory 2 keeping its name (new version, parent [2]); 4 = merge(2, 1) moves it back
+    ("merge-move", [[], [0], [0], [1, 2], [2, 1], [3, 4]],
+     [_R([1, 0, 0, "directory", False, 0], [2, 0, 0, "directory", False, 0], _F(3, 0, parent=1)),
+      _R([1, 0, 0, "directory", False, 0], [2, 0, 0, "directory", False, 0], _F(3, 0, parent=1), _F(4, 0)),
+      _R([1, 0, 0, "directory", False, 0], [2, 0, 0, "directory", False, 0], _F(3, 1, parent=1)),
+      _R([1, 0, 0, "directory", False, 0], [2, 0, 0, "directory", False, 0], _F(3, 1, parent=2), _F(4, 0)),
+      _R([1, 0, 0, "directory", False, 0], [2, 0, 0, "directory", False, 0], _F(3, 1, parent=2), _F(4, 0)),
+      _R([1, 0, 0, "directory", False, 0], [2, 0, 0, "directory", False, 0], _F(3, 1, parent=2), _F(4, 0))]),
+    # 3-parent merge with duplicate head candidates: 2 and 3 both hold version 1 of file 3, the basis 4 holds
+    # version 0; candidates [0, 1, 1] -> one head, carried over (no new text); 6: same with a content change
+    ("octopus-dup", [[], [0], [1], [1], [0], [4, 2, 3], [4, 3, 2]],
+     [_R(_F(3, 0)), _R(_F(3, 1)), _R(_F(3, 1), _F(4, 0)), _R(_F(3, 1), _F(5, 0)), _R(_F(3, 0), _F(6, 0)),
+      _R(_F(3, 1), _F(4, 0), _F(5, 0), _F(6, 0)), _R(_F(3, 2), _F(4, 0), _F(5, 0), _F(6, 0))]),
     # three parents, one equal to the basis
     ("octopus", [[], [0], [0], [0], [1, 2, 3]],
      [_R(_F(3, 0), _F(4, 0)), _R(_F(3, 1), _F(4, 0)), _R(_F(3, 0), _F(4, 1)), _R(_F(3, 0), _F(4, 0)),
@@ -327,7 +345,8 @@ def model_term(inp):
     pf, rich = FORMATS[inp["fmt"]]
     ops = "[" + "; ".join("([%s], [%s])" % ("; ".join(str(p) for p in ps), "; ".join(_coq_attrs(e) for e in t))
                           for ps, t in zip(inp["g"], inp["trees"])) + "]"
-    return "run_case (mkCfg %s %s) %s" % (coq_bool(pf), coq_bool(rich), ops)
+    assert pf, "every builder of the current code takes per-file heads"
+    return "run_case (now %s) %s" % (coq_bool(rich), ops)
 
 
 # ---- reference evaluation of the property's vocabulary (oracle side) ----------------------
@@ -419,8 +438,7 @@ def oracle(inp, obs):
 
 
 def finding_matches(fid, inp, obs, why):
-    if fid == FINDING:
-        return (not FORMATS[inp["fmt"]][0]) and heads_differ(inp)
+    # no known finding left for C02 (C02-global-heads-readd is fixed: its class must be reported again if it returns)
     return False
 
 
@@ -502,6 +520,6 @@ def search(hints, rng):
             except Exception as e:       # noqa: BLE001
                 return inp, "exception %r" % (e,), "driver raised"
             why = oracle(inp, obs)
-            if why and not finding_matches(FINDING, inp, obs, why):
+            if why:
                 return inp, obs, why
     return None
